@@ -848,6 +848,12 @@ impl StreamsState {
                 "MAX_STREAM_DATA on recv-only stream",
             ));
         }
+        if id.initiator() != self.side && id.index() >= self.max_remote[id.dir() as usize] {
+            // The peer may not open this stream (yet): without this check the frame would implicitly
+            // open every stream up to `id`, far beyond the advertised limit
+            debug!("got MAX_STREAM_DATA on {} beyond the stream limit", id);
+            return Err(TransportError::STREAM_LIMIT_ERROR(""));
+        }
 
         let write_limit = self.write_limit();
         let max_send_data = self.max_send_data(id);
